@@ -403,6 +403,9 @@ pub struct Shape {
     /// a map key that is an option (`Some`) or an enum variant of any form: sval_json loses track of
     /// its internal-tagging state after such a key
     pub tagged_key: bool,
+    /// a map key sval_json refuses (`invalid key`): sequence, tuple, map, struct, bytes, or an enum
+    /// variant that carries data
+    pub json_bad_key: bool,
     pub wide_int: bool,
     pub non_finite: bool,
     pub exotic: bool,
@@ -417,6 +420,7 @@ impl Shape {
         self.composite_key |= o.composite_key;
         self.odd_key |= o.odd_key;
         self.tagged_key |= o.tagged_key;
+        self.json_bad_key |= o.json_bad_key;
         self.wide_int |= o.wide_int;
         self.non_finite |= o.non_finite;
         self.exotic |= o.exotic;
@@ -485,6 +489,16 @@ pub fn key_class(k: &Node) -> KeyClass {
     }
 }
 
+/// Would sval_json refuse this node in map-key position?
+pub fn json_bad_key(k: &Node) -> bool {
+    match k {
+        Node::Bytes(_) | Node::Seq(_) | Node::Tuple(_) | Node::Map(_) | Node::Struct { .. } => true,
+        Node::Some(v) => json_bad_key(v),
+        Node::Variant { body, .. } => !matches!(body, VBody::Unit),
+        _ => false,
+    }
+}
+
 pub fn shape(n: &Node) -> Shape {
     let mut s = Shape { nodes: 1, ..Shape::default() };
     let mut kids = Shape::default();
@@ -523,6 +537,9 @@ pub fn shape(n: &Node) -> Shape {
                 }
                 if matches!(k, Node::Some(_) | Node::Variant { .. }) {
                     s.tagged_key = true;
+                }
+                if json_bad_key(k) {
+                    s.json_bad_key = true;
                 }
                 child(k, &mut kids);
                 child(v, &mut kids);
